@@ -27,3 +27,37 @@ def min_cover(ctx, G, ignore=(), starts=(), ends=(), cons=(), coverage=1.0, leng
     out = ctx.model.run(["covermin " + common.toks(t)])[0].strip()
     ctx.count("verified_cover_oracle", "calls")
     return None if out == "none" else int(out)
+
+
+def min_fd(ctx, G, attr, ignore=(), starts=(), ends=(), cons=(), coverage=1.0, lengths=None, kmax=4, max_paths=24):
+    """VERIFIED exhaustive oracle for INTEGER flow decompositions (coq/theories/FlowOracle.v, theorem min_fd_correct): least
+    number of weighted source-to-sink paths (non-negative integer weights) explaining the flow on every non-ignored edge and
+    realising every subpath constraint; None if none with <= kmax paths; "too-large" / "not-integer" when outside its domain."""
+    import flowpaths as fp, networkx as nx
+    from fractions import Fraction
+    st = fp.stDAG(G, additional_starts=list(starts), additional_ends=list(ends))
+    npaths = {}
+    for v in reversed(list(nx.topological_sort(st))):
+        npaths[v] = 1 if v == st.sink else sum(npaths[w] for w in st.successors(v))
+    if npaths[st.source] > max_paths:
+        return "too-large"
+    ids = e1.ids_of(st)
+    ign = list(dict.fromkeys(list(map(tuple, ignore)) + list(st.source_sink_edges) +
+                             [(u, v) for u, v in st.edges() if attr not in st[u][v]]))
+    flows = [(u, v, st[u][v][attr]) for u, v in st.edges() if attr in st[u][v] and (u, v) not in set(ign)]
+    if any(Fraction(x) != int(x) or x < 0 for _, _, x in flows):
+        return "not-integer"
+    wmax = max([int(x) for _, _, x in flows] + [0])
+    t = e1.graph_tokens(st, ids) + [0, False]
+    cons = [list(map(tuple, c)) for c in cons]
+    t += [len(cons), [[len(c), [[ids[u], ids[v]] for (u, v) in c]] for c in cons]]
+    if lengths is None:
+        t += common.qtok(coverage) + [0]
+    else:
+        es = list(st.edges())
+        t += common.qtok(coverage) + [1, len(es), [[ids[u], ids[v]] + common.qtok(lengths.get((u, v), 1)) for u, v in es]]
+    t += [len(flows), [[ids[u], ids[v]] + common.qtok(int(x)) for u, v, x in flows]]
+    t += [len(ign), [[ids[u], ids[v]] for u, v in ign]] + common.qtok(wmax) + [True, kmax]
+    out = ctx.model.run(["fdmin " + common.toks(t)])[0].strip()
+    ctx.count("verified_flow_oracle", "calls")
+    return None if out == "none" else int(out)
